@@ -44,7 +44,9 @@ META = dict(
                  "dispatch / set_nb_tasks, assumed in the stand-alone addto_/set_runtime_actions jobs",
                  "the code's asserts in msg_dispatch_taskpool / set_nb_tasks (state BUSY, root unknown, nb_tasks undetermined on receipt) "
                  "are restated as preconditions of those jobs",
-                 "malloc does not fail in msg_dispatch (the code does not test the result)"],
+                 "malloc does not fail in msg_dispatch (the code does not test the result)",
+                 "delayed path (job msg_dispatch.delayed.rg), rely: the application thread registers the taskpool and runs taskpool_ready "
+                 "only at points where the communication thread does not hold the delayed-list lock, at most once, and eventually does so"],
 )
 
 
@@ -83,6 +85,13 @@ def jobs(tier):
                     "taskpool's, either order), one taskpool becoming ready",
             functions=["parsec_termdet_user_trigger_msg_dispatch", "parsec_termdet_user_trigger_taskpool_ready",
                        "parsec_termdet_user_trigger_msg_dispatch_taskpool"], timeout=600, min_obligations=8),
+        # delayed path under interference of the application thread (register / real taskpool_ready at every point
+        # where the delayed-list lock is free): the notification is handled exactly once whatever the timing
+        Job("msg_dispatch.delayed.rg", "h_ut.c", entry="h_msg_delayed_rg", unwind=5,
+            bounded="delayed-message list starts empty and holds at most this one notification; the application thread's "
+                    "taskpool_ready is atomic w.r.t. the list lock (state change and scan in one environment step)",
+            functions=["parsec_termdet_user_trigger_msg_dispatch", "parsec_termdet_user_trigger_taskpool_ready",
+                       "parsec_termdet_user_trigger_msg_dispatch_taskpool"], timeout=600, min_obligations=10),
     ]
     if full:
         # second back end (MiniSat) on the two arithmetic jobs: a disagreement shows up as a failed / undecided job
